@@ -148,7 +148,11 @@ class SlurmSuite(Suite):
             ret = 0 if rng.random() < .8 else rng.choice([1, 2, 127, -9])
             import re as _re  # ground truth of "parsable": a literal prefix followed by an ASCII digit
             has = _re.search(r"Submitted batch job [0-9]", so) is not None
-            out.append({"op": "slurm.submit", "ret": ret, "stdout": so, "has_id": has and ret == 0})
+            c = {"op": "slurm.submit", "ret": ret, "stdout": so, "has_id": has and ret == 0}
+            if len(out) % 3 == 0:
+                c["stderr"] = rng.choice(["", "sbatch: error: Slurm temporarily unable to accept job, sleeping and retrying.\n",
+                                          "sbatch: warning: can't run 1 processes on 2 nodes\n", "ERROR", "Submitted batch job 99\n"])
+            out.append(c)
         return out
 
     def _script_cases(self, rng, count):
@@ -231,7 +235,8 @@ class SlurmSuite(Suite):
         from jade.enums import Status
         mgr = SlurmManager(None)
         FakePopen.calls = []
-        FakePopen.script = [(case["ret"], case["stdout"], "err")] * 10
+        # stderr of sbatch: noise, or the warning a busy controller prints before it accepts the job after all
+        FakePopen.script = [(case["ret"], case["stdout"], case.get("stderr", "err"))] * 10
         result, job_id, _ = mgr.submit("f.sh")
         self._last_execs = len(FakePopen.calls)
         return {"good": result == Status.GOOD, "id": job_id}
@@ -323,6 +328,10 @@ class SlurmSuite(Suite):
                                    f"squeue failed (ret={case['squeueRet']}) through all retries, yet is_complete() returned True for "
                                    f"{[i for i, c in zip(case['ids'], result['complete']) if c]}: nothing is known about these batches"))
         elif op == "slurm.submit":
+            if case["ret"] == 0 and case["has_id"] and not result.get("good"):
+                v.append(Violation("C18", "sbatch.accepted.treated_failed",
+                                   f"sbatch exited 0 and printed the id (stdout={case['stdout']!r}, stderr={case.get('stderr', 'err')!r}) "
+                                   "but the submission is treated as failed: the batch runs unrecorded"))
             if result.get("good") and not case["has_id"]:
                 v.append(Violation("C18", "sbatch.unparsable.accepted",
                                    f"sbatch ret={case['ret']} stdout={case['stdout']!r} treated as a successful submission id={result.get('id')!r}"))
